@@ -209,6 +209,39 @@ func (x *planExec) checkC07(op *Op, res *OpResult, meta *C07Meta, method string)
 		}
 		_ = st
 	}
+	// invariant 0: the biases are applied in the order of the request, each to the data the
+	// previous one left ("processBiases threads (original, current) through Bias.Apply"): the
+	// k-th application observed at the Bias seam is the k-th entry of the request (all entries of
+	// a C07 request are enabled and fire for sure)
+	var reqB struct {
+		Biases []struct {
+			Name     string   `json:"name"`
+			Disabled bool     `json:"disabled"`
+			Prob     *float64 `json:"applyProbability"`
+		} `json:"biases"`
+	}
+	if json.Unmarshal(op.BodyBytes(), &reqB) == nil {
+		var want []string
+		sure := true
+		for _, b := range reqB.Biases {
+			if b.Disabled {
+				continue
+			}
+			if b.Prob != nil && *b.Prob != 1 {
+				sure = false
+			}
+			want = append(want, b.Name)
+		}
+		if sure {
+			for i, st := range rec.Steps {
+				if i < len(want) && st.Name != want[i] {
+					x.violate("C07", "applied-out-of-order", op.ID, "C07|applied-out-of-order|"+method,
+						"the request lists the biases %v; the %d. application observed is %s, not %s: a bias does not work on the data the previous entry left", want, i+1, st.Name, want[i])
+					break
+				}
+			}
+		}
+	}
 	// invariant 1: answered with a ranking
 	if res.Class() != "ok" {
 		where := "before-biases"
